@@ -29,7 +29,7 @@ pub const XFS: [Xf; 11] = [
     [0., 0., 0., 0., 0., 0.],
 ];
 
-fn spec_from_path(p: &Path) -> PathSpec {
+pub fn spec_from_path(p: &Path) -> PathSpec {
     let ops = p
         .ops
         .iter()
@@ -152,6 +152,32 @@ impl Check for C11 {
                 }
             }
         });
+        // (i'') decimal scale factors with a translation that cancels most of the product, vertices
+        // whose exact images lie on the quarter-pixel grid: the one place where the way the products
+        // and sums of x' = x*m11 + y*m21 + m31 are rounded decides the cell a vertex falls into
+        {
+            let ks: [f32; 9] = [3., 7., 9., 11., 13., 17., 19., 23., 27.];
+            let gu: Vec<(f32, f32)> = (0..16).map(|i| (100.0 + 2.5 * (i % 4) as f32, 100.0 + 2.5 * (i / 4) as f32)).collect();
+            run.bound("decimal scales with cancelling translations", format!("all triangles over a 4x4 user grid at (100 + 2.5 i, 100 + 2.5 j) x {} scales k/10 with translation 2.25 - 10k (and a shear variant) x 2 aa on 24x24: same pixels as the pre-transformed path", ks.len()));
+            run.par(gu.len() * ks.len(), |s, l| {
+                let (i0, k) = (s / ks.len(), ks[s % ks.len()]);
+                let sc = k / 10.0;
+                for xf in [[sc, 0., 0., sc, 2.25 - 10.0 * k, 2.25 - 10.0 * k], [sc, 0., 0.1, sc, -8.0 - 10.0 * k, 2.5 - 10.0 * k]] {
+                    for i1 in i0 + 1..gu.len() {
+                        for i2 in i1 + 1..gu.len() {
+                            for aa in [true, false] {
+                                let p = PathSpec::poly(&[gu[i0], gu[i1], gu[i2]]);
+                                let o = Opts { mode: BlendMode::SrcOver, alpha: 1.0, aa };
+                                let a = Scene { w: 24, h: 24, dst: Dst::Zero, ops: vec![Op::SetTransform(xf), Op::Fill(p.clone(), white.clone(), o)] };
+                                let pre = spec_from_path(&p.build().transform(&xf_to(&xf)));
+                                let b = Scene { w: 24, h: 24, dst: Dst::Zero, ops: vec![Op::Fill(pre, white.clone(), o)] };
+                                one(run, 600 + s, l, "fill-under-T-vs-pretransformed-path", a, b, false);
+                            }
+                        }
+                    }
+                }
+            });
+        }
         // (i') invertible transforms with a tiny determinant (only a non-invertible T draws nothing):
         // user coordinates k times larger under scale 1/k
         let tiny: Vec<(f32, f32)> = vec![(4096., 4096.), (1., 1e7), (1e7, 1.), (1e4, 1e4), (1e-3, 1e9), (65536., 65536.)];
@@ -430,10 +456,20 @@ impl Check for C11 {
         ctxs.push((vec![Op::PushClipRect(0, 0, 2, 8), Op::PushClipRect(4, 0, 8, 8)], vec![Op::PopClip, Op::PopClip]));
         ctxs.push((vec![Op::PushClipRect(-9, -9, -2, -2)], vec![Op::PopClip]));
         ctxs.push((vec![Op::PushClipRect(5, 5, 3, 3)], vec![Op::PopClip]));
-        run.bound("transform-preserved", "11 transforms x 4 contexts x (clear, layer with clear inside, layer with fill)".to_string());
+        run.bound("transform-preserved", "11 transforms x 4 contexts x (clear, layer with clear inside, layer with fill, layers with set_transform between push and pop)".to_string());
         run.par(XFS.len(), |ti, l| {
             for (pre, suf) in &ctxs {
-                for body in [vec![Op::Clear(0x80402010)], vec![Op::PushLayer(0.5, BlendMode::Multiply), Op::Clear(0xffffffff), Op::PopLayer], vec![Op::PushLayer(1.0, BlendMode::SrcOver), Op::Fill(PathSpec::rect(1., 1., 3., 3.), white.clone(), Opts::default()), Op::PopLayer]] {
+                // the transform in force when a layer is popped is the one set last, also when it was
+                // set while the layer was open
+                let other: Xf = [0.5, 0.25, -0.25, 0.5, 1.0 + ti as f32, 2.0];
+                for body in [
+                    vec![Op::Clear(0x80402010)],
+                    vec![Op::PushLayer(0.5, BlendMode::Multiply), Op::Clear(0xffffffff), Op::PopLayer],
+                    vec![Op::PushLayer(1.0, BlendMode::SrcOver), Op::Fill(PathSpec::rect(1., 1., 3., 3.), white.clone(), Opts::default()), Op::PopLayer],
+                    vec![Op::PushLayer(1.0, BlendMode::SrcOver), Op::SetTransform(other), Op::Fill(PathSpec::rect(1., 1., 3., 3.), white.clone(), Opts::default()), Op::PopLayer, Op::Fill(PathSpec::rect(0., 0., 3., 3.), half.clone(), Opts::default())],
+                    vec![Op::PushLayer(0.5, BlendMode::SrcOver), Op::SetTransform(other), Op::PopLayer, Op::Clear(0x80402010)],
+                    vec![Op::PushLayer(0.5, BlendMode::SrcOver), Op::PushLayer(0.5, BlendMode::SrcOver), Op::SetTransform(other), Op::PopLayer, Op::SetTransform(IDENT), Op::PopLayer],
+                ] {
                     let mut ops = vec![Op::SetTransform(XFS[ti])];
                     ops.extend(pre.iter().cloned());
                     ops.extend(body.into_iter());
